@@ -8,6 +8,7 @@ import (
 	"runtime/debug"
 	"strconv"
 	"sync/atomic"
+	"syscall"
 	"time"
 )
 
@@ -43,6 +44,26 @@ type WorkerResult struct {
 }
 
 var hangLimitMs = int64(20000)
+
+// A run counts as hung when it has made no progress for hangLimitMs of wall
+// time AND this process has burnt at least 3/4 of that in CPU since (a busy
+// loop), or when it has made no progress for six times as long whatever the
+// CPU use (a blocked call). On a loaded machine a slow but live run does
+// neither.
+func cpuMillis() int64 {
+	var ru syscall.Rusage
+	if syscall.Getrusage(syscall.RUSAGE_SELF, &ru) != nil {
+		return 0
+	}
+	return (ru.Utime.Sec+ru.Stime.Sec)*1000 + int64(ru.Utime.Usec+ru.Stime.Usec)/1000
+}
+
+var curCPU atomic.Int64
+
+func markStart(start *atomic.Int64) {
+	curCPU.Store(cpuMillis())
+	start.Store(time.Now().UnixMilli())
+}
 
 // shrinking / shrinkTick let the watchdog cover minimisation too: every
 // candidate run restarts the clock, and a candidate that never returns ends
@@ -95,7 +116,9 @@ func RunWorker(spec WorkerSpec) *WorkerResult {
 				return
 			case <-time.After(time.Second):
 			}
-			if s := curStart.Load(); s != 0 && time.Now().UnixMilli()-s > hangLimitMs {
+			s := curStart.Load()
+			wall := time.Now().UnixMilli() - s
+			if s != 0 && wall > hangLimitMs && (cpuMillis()-curCPU.Load() > hangLimitMs*3/4 || wall > 6*hangLimitMs) {
 				if shrinking.Load() {
 					// a shrink candidate does not return: keep what was found
 					// (the un-minimised violation is already in the result) and stop
@@ -144,7 +167,7 @@ func RunWorker(spec WorkerSpec) *WorkerResult {
 				os.Rename(spec.Out+".cur.tmp", spec.Out+".cur")
 			}
 			curWorld.Store(w.Clone())
-			curStart.Store(time.Now().UnixMilli())
+			markStart(&curStart)
 			defer curStart.Store(0)
 			st.trace = 0
 			st.TraceLog = nil
@@ -173,7 +196,7 @@ func RunWorker(spec WorkerSpec) *WorkerResult {
 				if v.Kind != "hang" && spec.ShrinkS > 0 {
 					found := v.World.Seed
 					shrinking.Store(true)
-					shrinkTick = func() { curStart.Store(time.Now().UnixMilli()) }
+					shrinkTick = func() { markStart(&curStart) }
 					shrinkTick()
 					mv := Shrink(p, v, time.Duration(spec.ShrinkS)*time.Second)
 					shrinking.Store(false)
